@@ -187,7 +187,7 @@ def PV(poly: Poly, shape: str = "atom") -> Obj:
     def binop(op, other, refl):
         po, so = lift(other)
         if po is None:
-            return Unk("arith")
+            return NotImplemented if isinstance(other, Obj) and "binop" in other.methods and not refl else Unk("arith")
         a, sa, b, sb = (po, so, poly, shape) if refl else (poly, shape, po, so)
         if op == "Add":
             return PV(a + b, "sum")
